@@ -233,6 +233,7 @@ theorem doDelete_keeps_get (c : Cfg) (s : BState) (k : Bytes) (e : Nat) (fs : Li
 def Act.avoids (k0 : Bytes) : Act → Prop
   | .del ik _ => ik ≠ k0
   | .delcur ik _ _ => ik ≠ k0
+  | .expire ik _ vers _ => ik ≠ k0 ∧ k0 ∉ vers
   | _ => True
 
 theorem runDelete_keeps_get {mask : Nat → DelOutcome} {st : CompState} {a : Act} {k0 v : Bytes}
@@ -240,6 +241,7 @@ theorem runDelete_keeps_get {mask : Nat → DelOutcome} {st : CompState} {a : Ac
   cases a with
   | emit k v r => exact hg
   | panic => exact hg
+  | expire ik w vers raw => exact hg
   | del ik raw =>
     have ha : ik ≠ k0 := ha
     simp only [runDelete]
@@ -261,6 +263,48 @@ theorem runDeletes_keeps_get {mask : Nat → DelOutcome} {k0 v : Bytes} (acts : 
     simp only [List.foldl_cons]
     exact ih (fun x hx => ha x (List.mem_cons_of_mem _ hx)) _
       (runDelete_keeps_get (ha a (List.mem_cons_self ..)) hg)
+
+theorem foldl_erase_keeps_get (vers : List Bytes) (s : Store) {k0 v : Bytes} (h : k0 ∉ vers)
+    (hg : s.get k0 = some v) : (vers.foldl Store.erase s).get k0 = some v := by
+  induction vers generalizing s with
+  | nil => exact hg
+  | cons x xs ih =>
+    simp only [List.foldl_cons]
+    have hx : k0 ≠ x := fun e => h (e ▸ List.mem_cons_self ..)
+    exact ih _ (fun hm => h (List.mem_cons_of_mem _ hm)) (Store.get_erase_of_some _ _ _ _ hx hg)
+
+/-- the expiry batch leaves a key outside it alone -/
+theorem runAct_keeps_get {mask : Nat → DelOutcome} {st : CompState} {a : Act} {k0 v : Bytes}
+    (ha : a.avoids k0) (hg : st.store.get k0 = some v) : (runAct mask st a).store.get k0 = some v := by
+  cases a with
+  | expire ik w vers raw =>
+    obtain ⟨h1, h2⟩ : ik ≠ k0 ∧ k0 ∉ vers := ha
+    rw [runAct_expire]
+    rcases runExpire_cases mask st ik w vers raw with ⟨_, e, _⟩ | ⟨_, _, _, _, e, _⟩ | ⟨_, _, e, _⟩
+    · rw [e]; exact hg
+    · rw [e]; exact foldl_erase_keeps_get vers _ h2 (Store.get_erase_of_some _ _ _ _ (Ne.symm h1) hg)
+    · rw [e]; exact hg
+  | emit k w r => exact hg
+  | panic => exact hg
+  | del ik raw => exact runDelete_keeps_get (mask := mask) (a := .del ik raw) ha hg
+  | delcur ik w raw => exact runDelete_keeps_get (mask := mask) (a := .delcur ik w raw) ha hg
+
+theorem runActs_keeps_get {mask : Nat → DelOutcome} {k0 v : Bytes} (acts : List Act)
+    (ha : ∀ a ∈ acts, a.avoids k0) (st : CompState) (hg : st.store.get k0 = some v) :
+    (runActs mask st acts).store.get k0 = some v := by
+  unfold runActs
+  induction acts generalizing st with
+  | nil => exact hg
+  | cons a acts ih =>
+    simp only [List.foldl_cons]
+    exact ih (fun x hx => ha x (List.mem_cons_of_mem _ hx)) _
+      (runAct_keeps_get (ha a (List.mem_cons_self ..)) hg)
+
+theorem versionsOf_sub {k : Bytes} {snap : List Rec} {ik : Bytes} (h : ik ∈ versionsOf k snap) :
+    ∃ w ∈ snap, w.ik = ik := by
+  unfold versionsOf at h
+  obtain ⟨w, hw, e⟩ := List.mem_map.1 h
+  exact ⟨w, (List.mem_filter.1 hw).1, e⟩
 
 theorem workerStep_avoids {c : WCfg} {k0 : Bytes} (hk : ∀ k rv, encode k rv ≠ k0) (p : Prev) (r : Rec)
     (hr : r.ik ≠ k0) : ∀ a ∈ (workerStep c p r).1, a.avoids k0 := by
@@ -303,51 +347,55 @@ theorem workerActs_avoids (c : Cfg) (w : WCfg) (l : List (Bytes × Bytes)) (recs
   workerLoop_avoids (fun k rv => compactKey_ne_encode c k rv) recs
     (fun r hr => ne_compactKey_of_decode (decodeRecs_decoded l recs h r hr)) _
 
-/-- the same for the loop with expiry: whatever it remembers and whatever the outcomes of its delete calls -/
+/-- the same for the loop with expiry: whatever it remembers and whatever the outcomes of its calls -/
 theorem passLoop_avoids {c : WCfg} {k0 : Bytes} (hk : ∀ k rv, encode k rv ≠ k0) (mask : Nat → DelOutcome)
-    (recs : List Rec) (hr : ∀ r ∈ recs, r.ik ≠ k0) (p : Prev) (live : Bytes) (st : CompState) :
-    ∀ a ∈ (passLoop c mask p live st recs).1, a.avoids k0 := by
-  induction recs generalizing p live st with
+    (snap : List Rec) (hsnap : ∀ r ∈ snap, r.ik ≠ k0)
+    (recs : List Rec) (hr : ∀ r ∈ recs, r.ik ≠ k0) (p : Prev) (live gone : Bytes) (st : CompState) :
+    ∀ a ∈ (passLoop c mask snap p live gone st recs).1, a.avoids k0 := by
+  induction recs generalizing p live gone st with
   | nil => simp only [passLoop, emitPrev]; split <;> simp [Act.avoids]
   | cons r rs ih =>
     have hr0 := hr r (List.mem_cons_self ..)
     have hrs : ∀ x ∈ rs, x.ik ≠ k0 := fun x hx => hr x (List.mem_cons_of_mem _ hx)
     rw [passLoop_cons]
-    cases expiry c live r with
+    cases expiry c live gone r with
     | panic =>
       intro a ha
       rcases List.mem_cons.1 ha with rfl | ha
       · trivial
-      · exact ih hrs _ _ _ a ha
+      · exact ih hrs _ _ _ _ a ha
     | idx =>
       intro a ha
       rcases List.mem_cons.1 ha with rfl | ha
-      · exact hr0
-      · exact ih hrs _ _ _ a ha
+      · refine ⟨hr0, fun hm => ?_⟩
+        obtain ⟨w, hw, e⟩ := versionsOf_sub hm
+        exact hsnap w hw e
+      · exact ih hrs _ _ _ _ a ha
+    | gone => exact ih hrs _ _ _ _
     | ver =>
       intro a ha
       rcases List.mem_cons.1 ha with rfl | ha
       · exact hr0
-      · exact ih hrs _ _ _ a ha
+      · exact ih hrs _ _ _ _ a ha
     | noLive =>
       intro a ha
       rcases List.mem_append.1 ha with ha | ha
       · exact workerStep_avoids hk p r hr0 a ha
-      · exact ih hrs _ _ _ a ha
+      · exact ih hrs _ _ _ _ a ha
     | no =>
       intro a ha
       rcases List.mem_append.1 ha with ha | ha
       · exact workerStep_avoids hk p r hr0 a ha
-      · exact ih hrs _ _ _ a ha
+      · exact ih hrs _ _ _ _ a ha
 
 theorem passRun_keeps_get (c : Cfg) (w : WCfg) (mask : Nat → DelOutcome) (l : List (Bytes × Bytes))
     (recs : List Rec) (h : decodeRecs l = some recs) (st : CompState) {v : Bytes}
     (hg : st.store.get (compactKeyOf c) = some v) :
     (passRun w mask st recs).2.store.get (compactKeyOf c) = some v := by
-  unfold passRun
-  rw [passLoop_run]
-  exact runDeletes_keeps_get _ (passLoop_avoids (fun k rv => compactKey_ne_encode c k rv) mask recs
-    (fun r hr => ne_compactKey_of_decode (decodeRecs_decoded l recs h r hr)) _ _ _) _ hg
+  rw [passRun_eq, passLoop_run]
+  exact runActs_keeps_get _ (passLoop_avoids (fun k rv => compactKey_ne_encode c k rv) mask recs
+    (fun r hr => ne_compactKey_of_decode (decodeRecs_decoded l recs h r hr)) recs
+    (fun r hr => ne_compactKey_of_decode (decodeRecs_decoded l recs h r hr)) _ _ _ _) _ hg
 
 theorem take8_be8 (r : Nat) : (be8 r).take 8 = be8 r := by
   apply List.take_of_length_le; simp [be8, be64]
